@@ -159,6 +159,8 @@ pub struct GenCfg {
     pub background: bool,
     pub max_tile: u16,
     pub cel_density: u32, // out of 8
+    /// allow the occasional sprite that is an order of magnitude larger / wider / longer / deeper
+    pub scale: bool,
 }
 
 impl GenCfg {
@@ -187,6 +189,7 @@ impl GenCfg {
             background: true,
             max_tile: 8,
             cel_density: 5,
+            scale: true,
         }
     }
 }
@@ -356,13 +359,39 @@ pub fn build_sprite(t: &mut Tape, c: &GenCfg) -> Sprite {
     // about one sprite in fifty is an order of magnitude larger in every dimension (dozens of layers and
     // frames, canvases and cels of a hundred pixels, large tiles): most cases stay small and fast
     let scaled;
-    let c = if t.chance(1, 50) {
+    let mut deep_nesting = false;
+    let c = if c.scale && t.chance(1, 40) {
         let mut big = c.clone();
-        big.max_layers = (c.max_layers * 4).min(28);
-        big.max_frames = (c.max_frames * 5).min(24);
-        big.canvas_typ = (c.canvas_typ * 6).min(140);
-        big.max_cel = (c.max_cel * 6).min(100);
-        big.max_tile = (c.max_tile * 5).min(40);
+        match t.below(5) {
+            0 | 1 => {
+                big.max_layers = (c.max_layers * 4).min(28);
+                big.max_frames = (c.max_frames * 5).min(24);
+                big.canvas_typ = (c.canvas_typ * 6).min(140);
+                big.max_cel = (c.max_cel * 6).min(100);
+                big.max_tile = (c.max_tile * 5).min(40);
+            }
+            2 => {
+                // many layers that all carry (tiny) cels
+                big.max_layers = 140;
+                big.max_frames = 2;
+                big.max_cel = 2;
+                big.cel_density = 7;
+            }
+            3 => {
+                // many frames
+                big.max_frames = 300;
+                big.max_layers = 2;
+                big.max_cel = 3;
+                big.cel_density = 7;
+            }
+            _ => {
+                // groups nested 10..40 deep
+                big.max_layers = 45;
+                big.max_frames = 2;
+                big.max_cel = 3;
+                deep_nesting = true;
+            }
+        }
         scaled = big;
         &scaled
     } else {
@@ -468,7 +497,19 @@ pub fn build_sprite(t: &mut Tape, c: &GenCfg) -> Sprite {
         0 => t.below(2),
         _ => 1 + t.below(c.max_layers),
     } as usize;
-    let levels = gen_levels(t, nl, c.groups);
+    let levels = if deep_nesting && c.groups {
+        // mostly descending into ever deeper groups, with occasional steps back up
+        let mut v = Vec::with_capacity(nl);
+        let mut prev = 0u16;
+        for i in 0..nl {
+            let l = if i == 0 { 0 } else if t.chance(5, 6) { prev + 1 } else { t.below(prev as u32 + 1) as u16 };
+            v.push(l);
+            prev = l;
+        }
+        v
+    } else {
+        gen_levels(t, nl, c.groups)
+    };
     for i in 0..nl {
         let has_child = i + 1 < nl && levels[i + 1] > levels[i];
         let kind = if has_child {
